@@ -22,9 +22,11 @@ over records whose values range over `Val` (None, booleans, numbers, strings, li
 then hands over to the skeleton planners of `Model/PlanQ.lean` — i.e. here the catalog look-ups CHOOSE the constructor
 of `Sel` that `PlanQ` leaves to the generator.
 
-`CatFix` selects between the code as it is (`CatFix.live`, all flags `false`) and the proposed repairs
-`fixes/C09_r5_1…4.diff` (one flag each); which variant the library follows is pinned by the correspondence stream
-`catalog` of `tools/props/c09.py` on every run.  Core Lean only; names are lists of character codes (as in `PlanQ`).
+`CatFix` has one flag per repair of round 5 — e4d7787 (`ts`), 08911cf (`target`), d8a610a (`ns`), 88dbd1a (`itype`), formerly
+proposed as `fixes/C09_r5_1…4.diff`.  `CatFix.live` (all flags `true`) is the code as it is; `CatFix.former` (all `false`) is
+the code BEFORE those commits, kept for the regression theorems only.  Which variant the library follows is pinned on every
+run by the correspondence stream `catalog` of `tools/props/c09.py` (obligation `pin:catalog-lookups-variant-live`).
+Core Lean only; names are lists of character codes (as in `PlanQ`).
 -/
 namespace MindsVerif.Plan
 
@@ -69,20 +71,22 @@ def keyError : Err := .internal "KeyError"
 def attributeError : Err := .internal "AttributeError"
 def typeError : Err := .internal "TypeError"
 
-/-- which of the proposed repairs are in the code (`false` = the code as it is on the pinned tree) -/
+/-- which of the round-5 repairs are in the code (`true` = present, as in the library today; `false` = the former code) -/
 structure CatFix where
-  /-- fixes/C09_r5_1: the settings of a time-series model are validated (`PlanningException`) -/
+  /-- e4d7787: the settings of a time-series model are validated (`PlanningException`) -/
   ts : Bool
-  /-- fixes/C09_r5_2: `to_predict` that is not a column name (empty list, flag, number) means "no target" -/
+  /-- 08911cf: `to_predict` that is not a column name (empty list, flag, number) means "no target" -/
   target : Bool
-  /-- fixes/C09_r5_3: `integration_name: None` = key absent; a dotted legacy name supplies its project -/
+  /-- d8a610a: `integration_name: None` = key absent; a dotted legacy name supplies its project -/
   ns : Bool
-  /-- fixes/C09_r5_4: an integration dict without `type` is a data integration -/
+  /-- 88dbd1a: an integration dict without `type` is a data integration -/
   itype : Bool
   deriving DecidableEq, Repr
 
-def CatFix.live : CatFix := ⟨false, false, false, false⟩
-def CatFix.repaired : CatFix := ⟨true, true, true, true⟩
+/-- the code as it is -/
+def CatFix.live : CatFix := ⟨true, true, true, true⟩
+/-- the code before the round-5 repairs (history) -/
+def CatFix.former : CatFix := ⟨false, false, false, false⟩
 
 /-! ### `QueryPlanner.__init__` -/
 
@@ -99,10 +103,12 @@ inductive Form where
 /-- registration of one entry: the record stored in `self.predictor_info` (under the key built from the project and
 the name).  `proj` = the project part of a dotted name; `pns` = `self.predictor_namespace`.
 ```
-if 'integration_name' in predictor: integration_name = predictor['integration_name']
+if predictor.get('integration_name') is not None: integration_name = predictor['integration_name']
 else: integration_name = self.predictor_namespace; predictor = dict(predictor, integration_name=integration_name)
 …; _projects.add(integration_name.lower())
-``` (list form, and legacy form when `'.' not in name`); a dotted legacy entry is stored as it is. -/
+``` (list form, and legacy form when `'.' not in name`); a dotted legacy entry whose `integration_name` is absent / `None`
+gets the project part of its name.  FORMER code (`fx.ns = false`): the test was `'integration_name' in predictor`, and a dotted
+legacy entry was stored as it was. -/
 def register (fx : CatFix) (form : Form) (proj pns : Name) (r : Rec) : Except Err Rec :=
   match form with
   | .dotted =>
@@ -132,7 +138,8 @@ def IRec.get : IRec → IKey → Option Val
 /-- `"data"` -/
 def nameData : Name := [100, 97, 116, 97]
 
-/-- `if integration['type'] != 'data': _projects.add(name)`: is the integration dict a project? -/
+/-- `if integration.get('type', 'data') != 'data': _projects.add(name)` (FORMER code: `integration['type']`): is the
+integration dict a project? -/
 def integrationIsProject (fx : CatFix) (r : IRec) : Except Err Bool :=
   match r.get .type with
   | none => if fx.itype then .ok false else .error keyError
@@ -162,14 +169,15 @@ structure TSSettings where
 /-- `[i.lower() for i in group_by]` when `group_by` is a string: its characters -/
 def charsOf (s : Name) : List Name := s.map (fun c => [c])
 
-/-- fixes/C09_r5_1: `group_by_columns` absent or `None` = ungrouped; a list of names; anything else is refused -/
+/-- e4d7787: `group_by_columns` absent or `None` = ungrouped; a list of names; anything else is refused -/
 def groupsRepaired : Option Val → Except Err (List Name)
   | none => .ok []
   | some .null => .ok []
   | some (.strs l) => .ok l
   | some _ => .error (.planning "group_by_columns must be a list of column names")
 
-/-- the reads at the top of `plan_timeseries_predictor`.  As the code is (`fx.ts = false`):
+/-- the reads at the top of `plan_timeseries_predictor`.  The live code (`fx.ts = true`) reads with `.get` and validates;
+the FORMER code (`fx.ts = false`) was:
 ```
 order = md['order_by_column']; group = md['group_by_columns']; if group is None: group = []; window = md['window']
 … allowed_columns = [order.lower()]; if len(group) > 0: allowed_columns += [i.lower() for i in group]
@@ -201,7 +209,8 @@ def tsSettings (fx : CatFix) (info : Rec) : Except Err TSSettings :=
         | .bool _ | .num _ => .error typeError            -- len(group)
       | _ => .error attributeError                          -- order.lower()
 
-/-- `predict_target` of `process_predictor`:
+/-- `predict_target` of `process_predictor`.  Live (`fx.target = true`): an empty list or anything that is not a string means
+"no known target".  FORMER code:
 ```
 t = info.get('to_predict'); if isinstance(t, list) and len(t) > 0: t = t[0]
 if t is not None: t = t.lower()
